@@ -109,7 +109,11 @@ def classify_fill(c, solvent, value, base):
     cur = R.measure(c.contents, base)
     pb = R.per(solvent, base)
     if pb == 0:
-        # a solvent without measure in the unit of the target can never move the total (recorded finding KF03)
+        # a solvent without measure in the unit of the target can never move the total: refused (the former finding KF03) -
+        # except that a target the container is at already needs nothing, whatever is named as the solvent
+        rq0 = H1.request_quantum(base, c.contents) + K * H1.storage_noise_in(c.contents, base) + cf.q * (cf.mol_prefix if base != 'L' else cf.vol_prefix)
+        if abs(value - cur) <= 1e-6 * cur + K * rq0:
+            return 'boundary', 'at_current', 0.0
         return 'infeasible', 'solvent_has_no_measure', 0.0
     # the fill requirement is honoured to one request quantum
     rq = H1.request_quantum(base, c.contents) + K * H1.storage_noise_in(c.contents, base) + cf.q * (cf.mol_prefix if base != 'L' else cf.vol_prefix)
